@@ -114,9 +114,7 @@ def make_replay(chk):
         name = '%s-%s%d' % (case['path'], 'b' if case['bool'] else ('s' if case['signed'] else 'u'), case['size'])
         path = chk.write_replay(name, body)
         rc, out = common.run_replay(path, timeout=300)
-        if rc not in (0, 1):
-            raise common.HarnessError('replay script crashed:\n' + out[-2000:])
-        return rc == 1, path
+        return common.replay_verdict(rc, out), path
     return replay
 
 
